@@ -35,7 +35,7 @@ Inductive res (A : Type) : Type :=
 | Ok (a : A)
 | Diag          (* a JMC diagnostic (JMCSyntaxException): compilation refused *)
 | Crash         (* a non-JMC Python exception escapes (pinned tree only) *)
-| Unmodelled.   (* outside the modelled fragment: \N{..}, malformed literal body, Text with '&' *)
+| Unmodelled.   (* outside the modelled fragment: malformed literal body, custom properties of formatted text *)
 Arguments Ok {A} a. Arguments Diag {A}. Arguments Crash {A}. Arguments Unmodelled {A}.
 
 Definition rmap {A B} (f : A -> B) (r : res A) : res B :=
@@ -123,8 +123,12 @@ Fixpoint scan (q : Z) (esc : bool) (raw : str) : res str :=
   end.
 
 (* Python string-literal escapes (what ast.literal_eval does to the body) as a state machine.
-   `bad` = what a malformed \x \u \U escape yields (Diag after the fix, Crash on the pinned tree) *)
-Inductive pst := PNorm | PEsc | PHex (remaining : nat) (acc : Z) | POct (remaining : nat) (acc : Z).
+   `bad` = what a malformed \x \u \U \N escape yields (Diag after the fix, Crash on the pinned tree);
+   `nm`  = the Unicode name table used by \N{name} (unicodedata: a parameter of the model, like the
+           isprintable table; the theorems hold for every table, the harness passes Python's answers).
+           The name is collected in reverse up to the closing brace. *)
+Inductive pst := PNorm | PEsc | PHex (remaining : nat) (acc : Z) | POct (remaining : nat) (acc : Z)
+               | PNameOpen | PName (acc_rev : str).
 
 Definition is_oct (c : Z) : bool := (48 <=? c) && (c <=? 55).
 
@@ -134,27 +138,30 @@ Definition simple_escape (c : Z) : option Z :=
   else if c =? 110 then Some 10 else if c =? 114 then Some 13 else if c =? 116 then Some 9
   else if c =? 118 then Some 11 else None.
 
-Fixpoint pyun (bad : res str) (st : pst) (s : str) : res str :=
+Definition names := str -> option Z.
+
+Fixpoint pyun (nm : names) (bad : res str) (st : pst) (s : str) : res str :=
   match s with
   | [] => match st with
           | PNorm => Ok []
           | PEsc => Unmodelled
           | PHex _ _ => bad
           | POct _ acc => Ok [acc]
+          | PNameOpen | PName _ => bad
           end
   | c :: r =>
     match st with
-    | PNorm => if c =? 92 then pyun bad PEsc r else rmap (cons c) (pyun bad PNorm r)
+    | PNorm => if c =? 92 then pyun nm bad PEsc r else rmap (cons c) (pyun nm bad PNorm r)
     | PEsc =>
       match simple_escape c with
-      | Some v => rmap (cons v) (pyun bad PNorm r)
+      | Some v => rmap (cons v) (pyun nm bad PNorm r)
       | None =>
-        if is_oct c then pyun bad (POct 2 (c - 48)) r
-        else if c =? 120 then pyun bad (PHex 2 0) r          (* \xhh *)
-        else if c =? 117 then pyun bad (PHex 4 0) r          (* \uhhhh *)
-        else if c =? 85 then pyun bad (PHex 8 0) r           (* \Uhhhhhhhh *)
-        else if c =? 78 then Unmodelled                      (* \N{name}: needs the Unicode name table *)
-        else rmap (fun t => 92 :: c :: t) (pyun bad PNorm r) (* unknown escape: kept verbatim *)
+        if is_oct c then pyun nm bad (POct 2 (c - 48)) r
+        else if c =? 120 then pyun nm bad (PHex 2 0) r          (* \xhh *)
+        else if c =? 117 then pyun nm bad (PHex 4 0) r          (* \uhhhh *)
+        else if c =? 85 then pyun nm bad (PHex 8 0) r           (* \Uhhhhhhhh *)
+        else if c =? 78 then pyun nm bad PNameOpen r            (* \N{name} *)
+        else rmap (fun t => 92 :: c :: t) (pyun nm bad PNorm r) (* unknown escape: kept verbatim *)
       end
     | PHex k acc =>
       match hexval c with
@@ -163,8 +170,8 @@ Fixpoint pyun (bad : res str) (st : pst) (s : str) : res str :=
         let acc' := acc * 16 + d in
         match k with
         | O => Unmodelled
-        | S O => if acc' <=? 1114111 then rmap (cons acc') (pyun bad PNorm r) else bad
-        | S k' => pyun bad (PHex k' acc') r
+        | S O => if acc' <=? 1114111 then rmap (cons acc') (pyun nm bad PNorm r) else bad
+        | S k' => pyun nm bad (PHex k' acc') r
         end
       end
     | POct k acc =>
@@ -172,18 +179,26 @@ Fixpoint pyun (bad : res str) (st : pst) (s : str) : res str :=
         let acc' := acc * 8 + (c - 48) in
         match k with
         | O => Unmodelled
-        | S O => rmap (cons acc') (pyun bad PNorm r)
-        | S k' => pyun bad (POct k' acc') r
+        | S O => rmap (cons acc') (pyun nm bad PNorm r)
+        | S k' => pyun nm bad (POct k' acc') r
         end
-      else if c =? 92 then rmap (cons acc) (pyun bad PEsc r)
-      else rmap (fun t => acc :: c :: t) (pyun bad PNorm r)
+      else if c =? 92 then rmap (cons acc) (pyun nm bad PEsc r)
+      else rmap (fun t => acc :: c :: t) (pyun nm bad PNorm r)
+    | PNameOpen => if c =? 123 then pyun nm bad (PName []) r else bad     (* "malformed \N character escape" *)
+    | PName acc =>
+      if c =? 125 then
+        match nm (rev acc) with
+        | Some v => rmap (cons v) (pyun nm bad PNorm r)
+        | None => bad                                                    (* "unknown Unicode character name" *)
+        end
+      else pyun nm bad (PName (c :: acc)) r
     end
   end.
 
-Definition decode_with (bad : res str) (q : Z) (raw : str) : res str :=
-  rbind (scan q false raw) (pyun bad PNorm).
-Definition decode := decode_with Diag.            (* with fixes/C09-bad-escape.patch *)
-Definition decode_pinned := decode_with Crash.    (* pinned tree: SyntaxError escapes *)
+Definition decode_with (nm : names) (bad : res str) (q : Z) (raw : str) : res str :=
+  rbind (scan q false raw) (pyun nm bad PNorm).
+Definition decode (nm : names) := decode_with nm Diag.            (* with fixes/C09-bad-escape.patch *)
+Definition decode_pinned (nm : names) := decode_with nm Crash.    (* pinned tree: SyntaxError escapes *)
 
 (* ------------------------------------------------------------------ backtick (multi-line) strings *)
 (* tokenizer.py __parse_string (quote = backtick) + __parse_multiline_string, with
@@ -243,8 +258,8 @@ Definition bt_lines (v : str) : res str :=
   | [] => Diag
   end.
 
-Definition decode_bt (raw : str) : res str :=
-  rbind (scan_bt false raw) (fun body => rbind (pyun Diag PNorm body) bt_lines).
+Definition decode_bt (nm : names) (raw : str) : res str :=
+  rbind (scan_bt false raw) (fun body => rbind (pyun nm Diag PNorm body) bt_lines).
 
 (* pinned tree: `re.match` (a prefix match) instead of a full match -- a first / last line that
    merely STARTS with white space is accepted and dropped together with its text *)
@@ -262,17 +277,94 @@ Definition bt_lines_pinned (v : str) : res str :=
     end
   | [] => Diag
   end.
-Definition decode_bt_pinned (raw : str) : res str :=
-  rbind (scan_bt false raw) (fun body => rbind (pyun Crash PNorm body) bt_lines_pinned).
+Definition decode_bt_pinned (nm : names) (raw : str) : res str :=
+  rbind (scan_bt false raw) (fun body => rbind (pyun nm Crash PNorm body) bt_lines_pinned).
 
 (* q = 96: backtick string; 34 / 39: ordinary string *)
-Definition decode_any (q : Z) (raw : str) : res str :=
-  if q =? 96 then decode_bt raw else decode q raw.
+Definition decode_any (nm : names) (q : Z) (raw : str) : res str :=
+  if q =? 96 then decode_bt nm raw else decode nm q raw.
 
 (* a canonical way to *write* any value s inside quotes q (specification side) *)
 Definition py_quote_char (q c : Z) : str :=
   if c =? 92 then [92; 92] else if c =? q then [92; q] else if c =? 10 then [92; 110] else [c].
 Definition py_quote (q : Z) (s : str) : str := flat_map (py_quote_char q) s.
+
+(* ------------------------------------------------------------------ spellings (specification side) *)
+(* Everything a user may type between the quotes to denote a value, item by item: the character itself,
+   a one-letter escape, an escape Python does not know (kept with its backslash), a backslash-newline
+   (nothing), \o \oo \ooo, \xhh \uhhhh \Uhhhhhhhh (any mix of upper / lower case digits), \N{name}. *)
+Definition plain_char (q c : Z) : bool := negb (c =? 92) && negb (c =? 10) && negb (c =? q).
+
+Inductive sp :=
+| SpRaw (c : Z)
+| SpSimple (e : Z)
+| SpKeep (c : Z)
+| SpCont
+| SpOct (ds : str)
+| SpHex (ds : str)        (* 2 digits: \x, 4: \u, 8: \U *)
+| SpName (name : str).
+
+Definition hex_letter (n : nat) : Z := match n with 2%nat => 120 | 4%nat => 117 | _ => 85 end.
+Definition octfold (ds : str) : Z := fold_left (fun acc c => acc * 8 + (c - 48)) ds 0.
+Definition hexfold (ds : str) : Z :=
+  fold_left (fun acc c => acc * 16 + match hexval c with Some d => d | None => 0 end) ds 0.
+
+(* the source text of an item, and what the tokenizer hands to literal_eval (backslash-newline removed) *)
+Definition sp_src1 (x : sp) : str :=
+  match x with
+  | SpRaw c => [c]
+  | SpSimple e => [92; e]
+  | SpKeep c => [92; c]
+  | SpCont => [92; 10]
+  | SpOct ds => 92 :: ds
+  | SpHex ds => 92 :: hex_letter (length ds) :: ds
+  | SpName n => 92 :: 78 :: 123 :: n ++ [125]
+  end.
+Definition sp_scanned1 (x : sp) : str := match x with SpCont => [] | _ => sp_src1 x end.
+Definition sp_src (l : list sp) : str := flat_map sp_src1 l.
+Definition sp_scanned (l : list sp) : str := flat_map sp_scanned1 l.
+
+Definition sp_val1 (nm : names) (x : sp) : str :=
+  match x with
+  | SpRaw c => [c]
+  | SpSimple e => match simple_escape e with Some v => [v] | None => [] end
+  | SpKeep c => [92; c]
+  | SpCont => []
+  | SpOct ds => [octfold ds]
+  | SpHex ds => [hexfold ds]
+  | SpName n => match nm n with Some v => [v] | None => [] end
+  end.
+Definition sp_val (nm : names) (l : list sp) : str := flat_map (sp_val1 nm) l.
+
+Definition is_hex (c : Z) : bool := match hexval c with Some _ => true | None => false end.
+Definition starts_oct (s : str) : bool := match s with c :: _ => is_oct c | [] => false end.
+
+(* `next` = the text that follows the item once continuations are gone (a short octal escape must not be
+   followed by another octal digit) *)
+Definition sp_ok (q : Z) (nm : names) (next : str) (x : sp) : bool :=
+  match x with
+  | SpRaw c => plain_char q c
+  | SpSimple e => match simple_escape e with Some _ => true | None => false end
+  | SpKeep c => match simple_escape c with Some _ => false | None => true end
+                && negb (is_oct c) && negb (c =? 120) && negb (c =? 117) && negb (c =? 85) && negb (c =? 78)
+                && negb (c =? 10)
+  | SpCont => true
+  | SpOct ds => forallb is_oct ds &&
+                match length ds with
+                | 1%nat | 2%nat => negb (starts_oct next)
+                | 3%nat => true
+                | _ => false
+                end
+  | SpHex ds => forallb is_hex ds && (hexfold ds <=? 1114111) &&
+                match length ds with 2%nat | 4%nat | 8%nat => true | _ => false end
+  | SpName n => match nm n with Some _ => true | None => false end
+                && forallb (plain_char q) n && negb (memz 125 n)
+  end.
+Fixpoint sp_all_ok (q : Z) (nm : names) (l : list sp) : bool :=
+  match l with
+  | [] => true
+  | x :: r => sp_ok q nm (sp_scanned r) x && sp_all_ok q nm r
+  end.
 
 (* ================================================================== 2. emitters *)
 (* json.dumps(s) with ensure_ascii=True (py_encode_basestring_ascii) *)
@@ -300,6 +392,259 @@ Definition nbt_esc (pr : Z -> bool) (q c : Z) : str :=
   else 92 :: 85 :: hex8 c.
 Definition nbt_emit (pr : Z -> bool) (s : str) : str :=
   let q := nbt_quote_of s in q :: flat_map (nbt_esc pr q) s ++ [q].
+
+(* ================================================================== 2b. formatted text (Text.*, printf, ...) *)
+(* command/utils.py class FormattedText: `&<code>`, `&&`, `&<prop, prop, ...>`.  Ported statement by statement:
+   __parse (the character loop), __push, __parse_code, __parse_bracket, __str__.  A component is an ordered
+   dictionary; "text" is always its first key when present, so it is a field of its own and the other keys
+   keep their insertion order.  Fragment: the 22 one-letter codes, named / #rrggbb colours, the five styles
+   (also negated), `$var` and `objective:name` scores, `@selector`; pack formats below 19 (no "type" key; the
+   default of JMCTestPack); no TextProp declared (any other property = "Unknown property" diagnostic);
+   `a::b` (nbt) = Unmodelled.  An unknown one-letter code is a diagnostic (fixes/C09-unknown-format-code.patch;
+   on the tree before that patch the exception object was built but never raised: `strict = false`). *)
+Inductive fkey := FColor | FBold | FItalic | FUnderlined | FStrike | FObf | FScore | FSelector.
+Inductive fval := FStr (s : str) | FBool (b : bool) | FScoreV (name obj : str).
+Definition attrs := list (fkey * fval).
+
+Definition fkey_eqb (a b : fkey) : bool :=
+  match a, b with
+  | FColor, FColor | FBold, FBold | FItalic, FItalic | FUnderlined, FUnderlined | FStrike, FStrike
+  | FObf, FObf | FScore, FScore | FSelector, FSelector => true
+  | _, _ => false
+  end.
+
+Fixpoint aset (k : fkey) (v : fval) (a : attrs) : attrs :=
+  match a with
+  | [] => [(k, v)]
+  | (k', v') :: r => if fkey_eqb k k' then (k, v) :: r else (k', v') :: aset k v r
+  end.
+Definition ahas (k : fkey) (a : attrs) : bool := existsb (fun p => fkey_eqb k (fst p)) a.
+Definition adel (k : fkey) (a : attrs) : attrs := filter (fun p => negb (fkey_eqb k (fst p))) a.
+Fixpoint aget (k : fkey) (a : attrs) : option fval :=
+  match a with
+  | [] => None
+  | (k', v) :: r => if fkey_eqb k k' then Some v else aget k r
+  end.
+
+Record fcomp := mkComp { ctext : option str; cattrs : attrs }.
+Record fstate := mkF { f_text : str; f_cur : attrs; f_res : list fcomp; f_color : str }.
+Definition f_init : fstate := mkF [] [] [] [].
+
+Definition RESET : str := lit "reset".
+Definition COLOR_NAMES : list str :=
+  [lit "dark_red"; lit "red"; lit "gold"; lit "yellow"; lit "dark_green"; lit "green"; lit "aqua"; lit "dark_aqua";
+   lit "blue"; lit "dark_blue"; lit "light_purple"; lit "dark_purple"; lit "white"; lit "gray"; lit "dark_gray";
+   lit "black"; lit "reset"].
+Definition is_color_name (p : str) : bool := existsb (str_eqb p) COLOR_NAMES.
+Definition style_key (p : str) : option fkey :=
+  if str_eqb p (lit "bold") then Some FBold else if str_eqb p (lit "italic") then Some FItalic
+  else if str_eqb p (lit "underlined") then Some FUnderlined
+  else if str_eqb p (lit "strikethrough") then Some FStrike
+  else if str_eqb p (lit "obfuscated") then Some FObf else None.
+
+(* PROPS: the one-letter codes *)
+Definition code_prop (c : Z) : option (str + fkey) :=
+  if c =? 49 then Some (inl (lit "dark_blue")) else if c =? 50 then Some (inl (lit "dark_green"))
+  else if c =? 51 then Some (inl (lit "dark_aqua")) else if c =? 52 then Some (inl (lit "dark_red"))
+  else if c =? 53 then Some (inl (lit "dark_purple")) else if c =? 54 then Some (inl (lit "gold"))
+  else if c =? 55 then Some (inl (lit "gray")) else if c =? 56 then Some (inl (lit "dark_gray"))
+  else if c =? 57 then Some (inl (lit "blue")) else if c =? 48 then Some (inl (lit "black"))
+  else if c =? 97 then Some (inl (lit "green")) else if c =? 98 then Some (inl (lit "aqua"))
+  else if c =? 99 then Some (inl (lit "red")) else if c =? 100 then Some (inl (lit "light_purple"))
+  else if c =? 101 then Some (inl (lit "yellow")) else if c =? 102 then Some (inl (lit "white"))
+  else if c =? 107 then Some (inr FObf) else if c =? 108 then Some (inr FBold)
+  else if c =? 109 then Some (inr FStrike) else if c =? 110 then Some (inr FUnderlined)
+  else if c =? 111 then Some (inr FItalic) else if c =? 114 then Some (inl RESET)
+  else None.
+
+(* __can_merge / __push *)
+Definition color_only (a : attrs) : option str :=
+  match a with [(FColor, FStr c)] => Some c | _ => None end.
+Definition drop_reset (a : attrs) : attrs :=
+  match aget FColor a with
+  | Some (FStr c) => if str_eqb c RESET then adel FColor a else a
+  | _ => a
+  end.
+Definition f_push (st : fstate) : fstate :=
+  match f_text st with
+  | [] => st                                        (* `if not self.current_json["text"]: return` *)
+  | _ =>
+    let fresh := mkF [] [] (f_res st ++ [mkComp (Some (f_text st)) (drop_reset (f_cur st))]) (f_color st) in
+    match split_last (f_res st) with
+    | Some (init, mkComp (Some t) a) =>
+      match color_only a, color_only (f_cur st) with
+      | Some c, Some c' =>
+        if str_eqb c c' then mkF [] [] (init ++ [mkComp (Some (t ++ f_text st)) a]) (f_color st) else fresh
+      | _, _ => fresh
+      end
+    | _ => fresh
+    end
+  end.
+
+(* __parse_code *)
+Definition f_code (strict : bool) (c : Z) (st : fstate) : res fstate :=
+  match code_prop c with
+  | None => if strict then Diag else Ok st
+  | Some (inl color) => Ok (mkF (f_text st) (aset FColor (FStr color) (f_cur st)) (f_res st) color)
+  | Some (inr k) =>
+    let a := match f_color st with [] => f_cur st | col => aset FColor (FStr col) (f_cur st) end in
+    Ok (mkF (f_text st) (aset k (FBool true) a) (f_res st) (f_color st))
+  end.
+
+(* str.split(",") / str.strip() / str.count *)
+Fixpoint split_on (d : Z) (s : str) : list str :=
+  match s with
+  | [] => [[]]
+  | c :: r => if c =? d then [] :: split_on d r
+              else match split_on d r with h :: t => (c :: h) :: t | [] => [[c]] end
+  end.
+Fixpoint lstrip (s : str) : str :=
+  match s with c :: r => if py_space c then lstrip r else s | [] => [] end.
+Definition strip (s : str) : str := rev (lstrip (rev (lstrip s))).
+Definition count_char (d : Z) (s : str) : nat := length (filter (Z.eqb d) s).
+Fixpoint count_cc (s : str) : nat :=          (* "::", non-overlapping, leftmost first *)
+  match s with
+  | [] => O
+  | a :: r => match r with
+              | b :: r' => if (a =? 58) && (b =? 58) then S (count_cc r') else count_cc r
+              | [] => O
+              end
+  end.
+Fixpoint split_colon (s : str) : str * str :=
+  match s with
+  | [] => ([], [])
+  | c :: r => if c =? 58 then ([], r) else let (a, b) := split_colon r in (c :: a, b)
+  end.
+Definition ends_with (c : Z) (s : str) : bool :=
+  match split_last s with Some (_, x) => x =? c | None => false end.
+
+(* one property of a bracket; the assignments Python makes before it raises are not observable *)
+Definition has_content (a : attrs) : bool := ahas FScore a || ahas FSelector a.
+Definition f_prop (var : str) (prop0 : str) (st : fstate) : res fstate :=
+  let p0 := strip prop0 in
+  let neg := match p0 with c :: _ => c =? 33 | [] => false end in
+  let p := if neg then tl p0 else p0 in
+  let cur := f_cur st in
+  let upd a col := Ok (mkF (f_text st) a (f_res st) col) in
+  if is_color_name p then
+    if ahas FColor cur || neg then Diag else upd (aset FColor (FStr p) cur) p
+  else match style_key p with
+  | Some k => upd (aset k (FBool (negb neg)) cur) (f_color st)
+  | None =>
+    if match p with c :: _ => (c =? 35) && (length p =? 7)%nat | [] => false end then
+      if ahas FColor cur || neg then Diag else upd (aset FColor (FStr p) cur) (f_color st)
+    else if match p with c :: _ => c =? 36 | [] => false end then
+      if has_content cur || neg then Diag else upd (aset FScore (FScoreV p var) cur) (f_color st)
+    else if (count_char 58 p =? 1)%nat then
+      if has_content cur || neg then Diag
+      else let (obj, name) := split_colon p in upd (aset FScore (FScoreV name obj) cur) (f_color st)
+    else if (count_cc p =? 1)%nat then Unmodelled                 (* nbt *)
+    else if match p with c :: _ => c =? 64 | [] => false end then
+      if has_content cur || neg then Diag else upd (aset FSelector (FStr p) cur) (f_color st)
+    else Diag                                                     (* no TextProp declared: "Unknown property" *)
+  end.
+
+Fixpoint f_props (var : str) (ps : list str) (st : fstate) : res fstate :=
+  match ps with
+  | [] => Ok st
+  | p :: r => rbind (f_prop var p st) (f_props var r)
+  end.
+
+Definition is_style_or_color (k : fkey) : bool :=
+  match k with FScore | FSelector => false | _ => true end.
+
+(* __parse_bracket *)
+Definition f_bracket (var : str) (content : str) (st : fstate) : res fstate :=
+  rbind (f_props var (split_on 44 content) st) (fun st1 =>
+    let cur := if ahas FColor (f_cur st1) then f_cur st1
+               else match f_color st1 with [] => f_cur st1 | col => aset FColor (FStr col) (f_cur st1) end in
+    if has_content cur then
+      (* `del current_json["text"]`; the styles and the colour carry over to the next component *)
+      Ok (mkF [] (filter (fun p => is_style_or_color (fst p)) cur)
+              (f_res st1 ++ [mkComp None (drop_reset cur)]) (f_color st1))
+    else Ok (mkF (f_text st1) cur (f_res st1) (f_color st1))).
+
+(* __parse: the character loop *)
+Inductive fmode := FNorm | FCode | FBracket (content_rev : str).
+
+Fixpoint f_run (strict : bool) (var : str) (m : fmode) (s : str) (st : fstate) : res fstate :=
+  match s with
+  | [] => match m with
+          | FNorm => Ok (f_push st)
+          | FCode => Diag             (* "Unexpected trailing '&'" *)
+          | FBracket _ => Diag        (* "'<' was never closed" *)
+          end
+  | c :: r =>
+    match m with
+    | FBracket acc =>
+      if c =? 62 then rbind (f_bracket var (rev acc) st) (f_run strict var FNorm r)
+      else f_run strict var (FBracket (c :: acc)) r st
+    | FCode =>
+      if c =? 38 then f_run strict var FNorm r (mkF (f_text st ++ [38]) (f_cur st) (f_res st) (f_color st))
+      else if c =? 60 then f_run strict var (FBracket []) r (f_push st)
+      else rbind (f_code strict c (f_push st)) (f_run strict var FNorm r)
+    | FNorm =>
+      if c =? 38 then f_run strict var FCode r st
+      else f_run strict var FNorm r (mkF (f_text st ++ [c]) (f_cur st) (f_res st) (f_color st))
+    end
+  end.
+
+Definition fmt_parse (strict : bool) (var : str) (s : str) : res (list fcomp) :=
+  rmap f_res (f_run strict var FNorm s f_init).
+
+(* __str__ : json.dumps(.., separators=(",", ":")) of the component list *)
+Definition fkey_name (k : fkey) : str :=
+  match k with
+  | FColor => lit "color" | FBold => lit "bold" | FItalic => lit "italic" | FUnderlined => lit "underlined"
+  | FStrike => lit "strikethrough" | FObf => lit "obfuscated" | FScore => lit "score" | FSelector => lit "selector"
+  end.
+Definition fval_json (v : fval) : str :=
+  match v with
+  | FStr s => json_emit s
+  | FBool true => lit "true"
+  | FBool false => lit "false"
+  | FScoreV n o => lit "{""name"":" ++ json_emit n ++ lit ",""objective"":" ++ json_emit o ++ lit "}"
+  end.
+Fixpoint join_comma (l : list str) : str :=
+  match l with
+  | [] => []
+  | [x] => x
+  | x :: r => x ++ 44 :: join_comma r
+  end.
+Definition comp_json (c : fcomp) : str :=
+  let fields := match ctext c with Some t => [lit """text"":" ++ json_emit t] | None => [] end
+                ++ map (fun p => 34 :: fkey_name (fst p) ++ 34 :: 58 :: fval_json (snd p)) (cattrs c) in
+  123 :: join_comma fields ++ [125].
+Definition fmt_render (no_italic : bool) (cs : list fcomp) : str :=
+  match cs with
+  | [] => [34; 34]
+  | [c] =>
+    match ctext c, cattrs c with
+    | Some t, [] => json_emit t
+    | _, _ => comp_json (if no_italic && negb (ahas FItalic (cattrs c))
+                         then mkComp (ctext c) (cattrs c ++ [(FItalic, FBool false)]) else c)
+    end
+  | _ => 91 :: join_comma ((if no_italic then lit "{""text"":"""",""italic"":false}" else [34; 34]) :: map comp_json cs)
+         ++ [93]
+  end.
+
+Definition fmt_emit (strict : bool) (var : str) (no_italic : bool) (s : str) : res str :=
+  rmap (fmt_render no_italic) (fmt_parse strict var s).
+
+(* what the reader sees: the text of the literal without the codes (`&&` is one `&`) *)
+Fixpoint fmt_plain (m : fmode) (s : str) : str :=
+  match s with
+  | [] => []
+  | c :: r =>
+    match m with
+    | FBracket _ => if c =? 62 then fmt_plain FNorm r else fmt_plain m r
+    | FCode => if c =? 38 then 38 :: fmt_plain FNorm r
+               else if c =? 60 then fmt_plain (FBracket []) r else fmt_plain FNorm r
+    | FNorm => if c =? 38 then fmt_plain FCode r else c :: fmt_plain FNorm r
+    end
+  end.
+Definition comp_texts (cs : list fcomp) : str :=
+  flat_map (fun c => match ctext c with Some t => t | None => [] end) cs.
 
 (* ================================================================== 3. what Minecraft reads back *)
 (* RFC 8259 string -> UTF-16 units; returns (units, text after the closing quote) *)
@@ -408,13 +753,14 @@ Definition nbt_unquote_legacy (s : str) : option str :=
      KSay                      say "<lit>";
      KJson pre post            tellraw @a "<lit>";  tellraw @a {"text":"<lit>"};  title .. (json.dumps)
      KNbt pre post             data merge entity @s {CustomName:"<lit>"};  give @s stone{..:"<lit>"}
-     KText pre post            Text.tellraw(@a, "<lit>")  (FormattedText; modelled for text without '&')
+     KText pre post var        Text.tellraw(@a, "<lit>"), Text.title, printf, ...  (FormattedText: section 2b; var = the
+                               objective of `$var` scores)
    pre/post are the emitted text around the hole (tied by correspondence). *)
 Inductive carrier :=
 | KSay
 | KJson (pre post : str)
 | KNbt (pre post : str)
-| KText (pre post : str).
+| KText (pre post var : str).
 
 Definition SAY_ : str := lit "say ".
 
@@ -423,7 +769,7 @@ Definition emit (pr : Z -> bool) (k : carrier) (s : str) : res str :=
   | KSay => if memz 10 s || memz 13 s then Diag else Ok (SAY_ ++ s)   (* LF (pinned) and CR (C09-say-carriage-return.patch) *)
   | KJson pre post => Ok (pre ++ json_emit s ++ post)
   | KNbt pre post => Ok (pre ++ nbt_emit pr s ++ post)
-  | KText pre post => if memz 38 s then Unmodelled else Ok (pre ++ json_emit s ++ post)
+  | KText pre post var => rmap (fun j => pre ++ j ++ post) (fmt_emit true var false s)
   end.
 
 Definition strip_prefix (p s : str) : option str :=
@@ -433,7 +779,7 @@ Definition strip_prefix (p s : str) : option str :=
 Definition read (k : carrier) (line : str) : option str :=
   match k with
   | KSay => strip_prefix SAY_ line
-  | KJson pre post | KText pre post =>
+  | KJson pre post | KText pre post _ =>
     match strip_prefix pre line with
     | Some t => match json_unquote_rest t with
                 | Some (v, rest) => if str_eqb rest post then Some v else None
@@ -452,7 +798,7 @@ Definition read (k : carrier) (line : str) : option str :=
   end.
 
 Definition carrier_pre (k : carrier) : str :=
-  match k with KSay => SAY_ | KJson pre _ | KNbt pre _ | KText pre _ => pre end.
+  match k with KSay => SAY_ | KJson pre _ | KNbt pre _ | KText pre _ _ => pre end.
 (* the emitted command does not begin with the letter e (so it is not an `execute`) *)
 Definition carrier_wf (k : carrier) : bool :=
   match carrier_pre k with c :: _ => negb (c =? 101) | [] => false end.
@@ -578,5 +924,5 @@ Definition assign2_pinned (h1 o1 h2 o2 : str) (c : str) : str :=
     (w_prefix (STORE_ h1 o1) ++ apply_w (WJoin EXECUTE (STORE_ h2 o2)) c).
 
 (* ================================================================== 6. whole pipeline *)
-Definition compile_lit (pr : Z -> bool) (q : Z) (raw : str) (k : carrier) (cs : list ctx) : res str :=
-  rbind (decode_any q raw) (fun s => rmap (wrap cs) (emit pr k s)).
+Definition compile_lit (nm : names) (pr : Z -> bool) (q : Z) (raw : str) (k : carrier) (cs : list ctx) : res str :=
+  rbind (decode_any nm q raw) (fun s => rmap (wrap cs) (emit pr k s)).
